@@ -133,11 +133,13 @@ func VerifC12_PassThrough() {
 	zz.Assert("C12.pass.N_is_floor", n == ms/100 && n >= 1)
 }
 
-func c12RegularCycle(n, maxRate int) {
+func c12RegularCycle(n, maxRate int) { c12RegularCycleRange(n, 0, maxRate) }
+
+func c12RegularCycleRange(n, minRate, maxRate int) {
 	rateCalls := 0
 	rateFn := func(time.Time) int {
 		r := zz.Int("rate")
-		zz.Assume(r >= 0)
+		zz.Assume(r >= minRate)
 		zz.Assume(r <= maxRate)
 		rateCalls++
 		return r
@@ -176,6 +178,16 @@ func c12RegularCycle(n, maxRate int) {
 //verif:unroll 40
 //verif:noreplay closure state is set through engine-only intrinsics
 func VerifC12_Regular2() { c12RegularCycle(2, 127) }
+
+// VerifC12_Regular3High: the same kernel for a window of HIGH rates (per-sub-tick share in the thousands, where scaling
+// the accumulator before the ceiling starts to lose bits; N = 3 so that the share is not a dyadic fraction): rates
+// 12270..12310.
+//
+//verif:solver cvc5
+//verif:timeout 240
+//verif:unroll 40
+//verif:noreplay closure state is set through engine-only intrinsics
+func VerifC12_Regular3High() { c12RegularCycleRange(3, 12270, 12310) }
 
 //verif:solver cvc5
 //verif:timeout 240
